@@ -298,6 +298,32 @@ def run(ctx):
             ok, err = False, repr(ex)[:200]
         if not ok:
             ctx.violation({'kind': 'attributes-assigned-after-construction', 'which': which}, {'shape': [m_, n_], 'error': err}, case=None)
+    # what the OPD and amplitude arrays hold OUTSIDE the mask (NaN where a measured map has no data, a huge sentinel) is multiplied by
+    # zero there and must not reach the field - whichever bounding boxes the description of the aperture happens to have
+    for _ in range(12):
+        m_, n_ = rng.randint(4, 7), rng.randint(4, 7)
+        sup_ = np.zeros((m_, n_), dtype=int)
+        sup_[0:2, 0:2] = 1
+        sup_[m_ - 2:, n_ - 2:] = 1                       # two blocks in opposite corners: the bounding box covers the gap
+        O_ = np.array([[rng.randrange(16) for _ in range(n_)] for _ in range(m_)]) * (1e-6 / 16)
+        A_ = np.array([[rng.choice((1.0, 2.0)) for _ in range(n_)] for _ in range(m_)])
+        junk = rng.choice((np.nan, np.inf, 1e303))
+        which = rng.choice(('opd', 'amplitude', 'both'))
+        O_j = np.where(sup_ != 0, O_, junk) if which in ('opd', 'both') else O_
+        A_j = np.where(sup_ != 0, A_, junk if np.isnan(junk) else np.nan) if which in ('amplitude', 'both') else A_
+        segs_ = np.zeros((2, m_, n_), dtype=int)
+        segs_[0, 0:2, 0:2] = 1
+        segs_[1, m_ - 2:, n_ - 2:] = 1
+        ref_ = (lentil.Wavefront(1e-6) * lentil.Plane(amplitude=A_ * sup_, opd=O_ * sup_, mask=sup_)).field
+        for mk_, name in ((sup_, 'one mask'), (segs_, 'two segments')):
+            ctx.case(('junk-outside-the-mask', which, str(junk), name, m_, n_))
+            import warnings as _w2
+            with _w2.catch_warnings():
+                _w2.simplefilter('ignore')
+                got_ = (lentil.Wavefront(1e-6) * lentil.Plane(amplitude=A_j, opd=O_j, mask=mk_)).field
+            if not (np.all(np.isfinite(got_)) and np.allclose(got_, ref_, rtol=1e-12, atol=1e-12)):
+                ctx.violation({'kind': 'values-outside-the-mask-reach-the-field', 'which': which, 'described_by': name},
+                              {'outside': str(junk), 'non_finite_samples': int((~np.isfinite(got_)).sum())}, case=None)
     # a scalar amplitude is that number whatever type the (binary) mask is stored in
     for _ in range(12):
         m_, n_ = rng.randint(2, 5), rng.randint(2, 5)
